@@ -572,7 +572,7 @@ def _symbolic_for(interp, s, frame, state, space, promoted=None):
                 goals.append(z3.Implies(z3.And(*rng) if rng else z3.BoolVal(True), g))
         else:
             with use_state(st2):
-                goals.extend(_cell_eq_goals(st2.heap[sid], heap_n[sid]))
+                goals.extend(_cell_eq_goals(st2.heap[sid], heap_n[sid], (st2, st2)))
     assum = st2.all_assumptions()
     import os
     if os.environ.get("PYVC_DEBUG_LOOPS"):
@@ -1535,6 +1535,8 @@ def _summarise_cell(interp, sid, pre_cell, heap_h, st1, iz, lo, hi, hv_consts, h
                         return _rebind_obj(v0, st1, cur(), iz, t, force=True)
                     return Content("list", A.SeqVal(length, fn), pre_cell.meta)
                 return at
+            if tuple(post[:k0]) == tuple(pre) and len(added) == 1 and not sv.is_scalar(norm(added[0])):
+                return _summarise_object_append(pre_cell, pre, added[0], st1, iz, lo, hv_consts, hv_funcs)
             if tuple(post[:k0]) == tuple(pre) and len(added) >= 1 and all(sv.is_scalar(norm(x)) for x in added):
                 m = len(added)
                 for x in added:
@@ -1628,6 +1630,189 @@ def _summarise_cell(interp, sid, pre_cell, heap_h, st1, iz, lo, hi, hv_consts, h
     raise EngineError(f"heap cell of kind {pre_cell.kind} modified in a symbolic loop")
 
 
+class AppendedSeq(A.SeqVal):
+    """base sequence (first n items given by base_fn) followed by one non-scalar item"""
+    __slots__ = ("base_fn", "n", "last")
+
+    def __init__(self, base_fn, n, last):
+        self.base_fn, self.n, self.last = base_fn, n, last
+        A.SeqVal.__init__(self, A.simp(sv.add(n, 1)), self._get)
+
+    def _get(self, i):
+        if A.dim_eq_syntactic(i, self.n):
+            return self.last
+        if is_conc(i) and is_conc(self.n) or _provably_less(i, self.n):
+            return self.base_fn(i)
+        # decided by the path condition (i < n: an earlier item; i == n: the appended one)
+        try:
+            sol = z3.Solver()
+            sol.set("timeout", 1500)
+            for f in cur().all_assumptions():
+                sol.add(f)
+            iz_, nz_ = sv.znum(i), sv.znum(self.n)
+            sol.push()
+            sol.add(iz_ >= nz_)
+            if sol.check() == z3.unsat:
+                return self.base_fn(i)
+            sol.pop()
+            sol.add(iz_ != nz_)
+            if sol.check() == z3.unsat:
+                return self.last
+        except z3.Z3Exception:  # pragma: no cover
+            pass
+        raise EngineError("element of a symbolic-length list of objects at an index not syntactically before / at its end")
+
+
+def _provably_less(i, n):
+    d = z3.simplify(sv.znum(n) - sv.znum(i))
+    return z3.is_int_value(d) and d.as_long() > 0
+
+
+def _value_terms(v, st1, depth=0):
+    """all scalar terms a (possibly structured) value depends on: arrays are probed at fresh positions"""
+    v = norm(v) if sv.is_scalar(norm(v)) else v
+    if depth > 6:
+        raise EngineError("deeply nested value appended in a loop")
+    if sv.is_scalar(v):
+        return _terms_of(v)
+    if v is None or isinstance(v, (str, bool)):
+        return []
+    if isinstance(v, A.Arr):
+        c = st1.heap[v.sid]
+        shape = c.meta["shape"]
+        out = [t for d in shape for t in _terms_of(d)]
+        out += _terms_of(c.data(tuple(sv.fresh_int("vp") for _ in shape)))
+        if v.view is not None:
+            for spec in v.view.base:
+                out += _terms_of(spec[1])
+            for d in v.view.shape:
+                out += _terms_of(d)
+        return out
+    if isinstance(v, A.Masked):
+        t = sv.fresh_int("vp")
+        return _terms_of(v.n) + _terms_of(v.mask(t)) + _terms_of(v.src((t,) + tuple(sv.fresh_int("vp") for _ in v.rest)))
+    if isinstance(v, Ref) and v.kind == "obj":
+        out = []
+        for x in st1.heap[v.sid].data.values():
+            out += _value_terms(x, st1, depth + 1)
+        return out
+    if isinstance(v, Ref) and v.kind == "list" and not isinstance(st1.heap[v.sid].data, A.SeqVal):
+        out = []
+        for x in st1.heap[v.sid].data:
+            out += _value_terms(x, st1, depth + 1)
+        return out
+    if isinstance(v, tuple):
+        return [t for x in v for t in _value_terms(x, st1, depth + 1)]
+    raise EngineError(f"value of type {type(v).__name__} appended in a symbolic loop")
+
+
+def import_value(v, st1, pairs, depth=0):
+    """deep copy of a value of the (forked) state st1 into the current state with the substitution `pairs` applied"""
+    if sv.is_scalar(norm(v)):
+        return _subst_val(v, pairs)
+    if v is None or isinstance(v, (str, bool)):
+        return v
+    st = cur()
+    if isinstance(v, A.Arr):
+        c = st1.heap[v.sid]
+        if v.sid in st.heap and st.heap[v.sid] is c:
+            sid = v.sid        # a cell that exists unchanged in the current state (an input): keep the alias
+        else:
+            fn = c.data
+            meta = dict(c.meta)
+            meta["shape"] = tuple(_subst_val(d, pairs) for d in meta["shape"])
+            sid = st.alloc(Content("arr", A._memo(lambda idx, fn=fn: _subst_val(fn(idx), pairs)), meta))
+        view = v.view
+        if view is not None:
+            nb = [("fix", _subst_val(spec[1], pairs)) if spec[0] == "fix" else ("rng", _subst_val(spec[1], pairs), spec[2]) for spec in view.base]
+            view = A.View(nb, [_subst_val(d, pairs) for d in view.shape])
+        return A.Arr(sid, view, v.dtype)
+    if isinstance(v, A.Masked):
+        src, mask = v.src, v.mask
+        return A.Masked(lambda idx: _subst_val(src(idx), pairs), _subst_val(v.n, pairs), lambda t: _subst_val(mask(t), pairs),
+                        tuple(_subst_val(d, pairs) for d in v.rest), v.dtype)
+    if isinstance(v, Ref) and v.kind == "obj":
+        c = st1.heap[v.sid]
+        if v.sid in st.heap and st.heap[v.sid] is c:
+            return v
+        data = {k: import_value(x, st1, pairs, depth + 1) for k, x in c.data.items()}
+        return Ref(st.alloc(Content("obj", data, dict(c.meta))), "obj", v.cls)
+    if isinstance(v, Ref) and v.kind == "list":
+        c = st1.heap[v.sid]
+        if v.sid in st.heap and st.heap[v.sid] is c:
+            return v
+        if isinstance(c.data, A.SeqVal):
+            raise EngineError("symbolic-length list inside a value appended in a loop")
+        return Ref(st.alloc(Content("list", tuple(import_value(x, st1, pairs, depth + 1) for x in c.data), dict(c.meta))), "list")
+    if isinstance(v, tuple):
+        return tuple(import_value(x, st1, pairs, depth + 1) for x in v)
+    raise EngineError(f"value of type {type(v).__name__} appended in a symbolic loop")
+
+
+def _summarise_object_append(pre_cell, pre, v, st1, iz, lo, hv_consts, hv_funcs):
+    """L.append(obj(i)) with a non-scalar value that depends on the iteration only (not on loop-carried state):
+    L(k) = L0 ++ [obj(lo), …, obj(k-1)]; obj(t) is the appended value with the loop index replaced by t (a deep copy)."""
+    if len(pre) != 0:
+        raise EngineError("objects appended in a symbolic loop to a non-empty list")
+    for t in _value_terms(v, st1):
+        if _contains_any(z3.simplify(t), hv_consts, hv_funcs):
+            raise EngineError("appended object depends on loop-carried state")
+    cache = {}
+
+    def item(p):
+        t = A.simp(sv.add(lo, p))
+        key = t if is_conc(t) else ("z", t.t.get_id())
+        st = cur()
+        hit = cache.get(key)
+        if hit is not None and hit[0] is st.heap.get(hit[2]) :
+            return hit[1]
+        val = import_value(v, st1, [(iz, sv.znum(t))])
+        probe = val.sid if isinstance(val, (Ref, A.Arr)) else None
+        cache[key] = (st.heap.get(probe), val, probe)
+        return val
+
+    def at(k):
+        return Content("list", A.SeqVal(A.simp(sv.sub(k, lo)), item), pre_cell.meta)
+    return at
+
+
+def struct_eq_goals(a, b, sta, stb, depth=0):
+    """value equality of two structured values living in the states sta / stb"""
+    if depth > 6:
+        return [z3.BoolVal(False)]
+    na, nb = norm(a) if sv.is_scalar(norm(a)) else a, norm(b) if sv.is_scalar(norm(b)) else b
+    if sv.is_scalar(na) and sv.is_scalar(nb):
+        return _eq_goals(na, nb)
+    if a is None or b is None or isinstance(a, str) or isinstance(b, str):
+        return [z3.BoolVal(type(a) is type(b) and a == b)]
+    if isinstance(a, A.Arr) and isinstance(b, A.Arr):
+        with use_state(sta):
+            sha, ra = a.shape, a.reader()
+        with use_state(stb):
+            shb, rb = b.shape, b.reader()
+        if len(sha) != len(shb) or a.dtype != b.dtype:
+            return [z3.BoolVal(False)]
+        goals = []
+        for x, y in zip(sha, shb):
+            goals.extend(_eq_goals(x, y))
+        idx = tuple(sv.fresh_int("q") for _ in sha)
+        rng = [sv.zb(sv.and_(sv.cmp(">=", x, 0), sv.cmp("<", x, d))) for x, d in zip(idx, sha)]
+        for g in _eq_goals(ra(idx), rb(idx)):
+            goals.append(z3.Implies(z3.And(*rng) if rng else z3.BoolVal(True), g))
+        return goals
+    if isinstance(a, Ref) and isinstance(b, Ref) and a.kind == b.kind == "obj":
+        ca, cb = sta.heap[a.sid], stb.heap[b.sid]
+        if (a.cls.name if a.cls else None) != (b.cls.name if b.cls else None) or set(ca.data) != set(cb.data):
+            return [z3.BoolVal(False)]
+        goals = []
+        for k in ca.data:
+            goals.extend(struct_eq_goals(ca.data[k], cb.data[k], sta, stb, depth + 1))
+        return goals
+    if isinstance(a, tuple) and isinstance(b, tuple) and len(a) == len(b):
+        return [g for x, y in zip(a, b) for g in struct_eq_goals(x, y, sta, stb, depth + 1)]
+    return [z3.BoolVal(False)]
+
+
 def _summarise_file_cell(pre_cell, post_cell, iz, lo, hi, hv_consts, hv_funcs, resolved=()):
     """a file handle used inside a symbolic loop.
     reading: every iteration advances the position by a constant number of lines -> pos(k) = pos0 + c (k - lo);
@@ -1715,11 +1900,23 @@ def _file_cells_equal(a, b):
     return [z3.BoolVal(False)]
 
 
-def _cell_eq_goals(a, b):
+def _cell_eq_goals(a, b, states=None):
     if a.kind == "file" and b.kind == "file":
         return _file_cells_equal(a, b)
+    if a.kind == "list" and b.kind == "list" and isinstance(a.data, AppendedSeq) and isinstance(b.data, A.SeqVal):
+        # step shape for lists of objects: base ++ [v]  ==  summary(k+1): same item function on the common prefix (by construction),
+        # equal length, and the appended object equals the summary's last item (structural value equality)
+        ca, cb = a.data, b.data
+        if ca.base_fn is not cb.fn:
+            return [z3.BoolVal(False)]
+        sta, stb = (states or (cur(), cur()))
+        with use_state(stb):
+            lastb = cb.fn(ca.n)
+        return _eq_goals(ca.length, cb.length) + struct_eq_goals(ca.last, lastb, sta, stb)
     if a.kind == "list" and b.kind == "list":
         ca, cb = a.data, b.data
+        if isinstance(ca, A.SeqVal) and isinstance(cb, A.SeqVal) and ca.fn is cb.fn:
+            return _eq_goals(ca.length, cb.length)
         la = ca.length if isinstance(ca, A.SeqVal) else len(ca)
         lb = cb.length if isinstance(cb, A.SeqVal) else len(cb)
         goals = _eq_goals(la, lb)
